@@ -200,6 +200,39 @@ def mkQuant (g : Reg) (c u : Sym) : Except ErrKind Quant :=
       | .ok r => .ok (.simple ci u' r)
       | .error e => .error e
 
+/-- `GetDefaultCategory(unit)`: the unit's own `default_category` when it has one, else its quantity
+type when a category of that name is registered; a legacy spelling is looked up under its current one
+(`KeyError` when that is no unit either) -/
+def pickDefaultCat (g : Reg) (r : UnitRow) : Option Sym :=
+  if r.defaultCat != 0 then some r.defaultCat
+  else if (g.cat? r.qtype).isSome then some r.qtype
+  else none
+
+def defaultCategory (g : Reg) (u : Sym) : Except ErrKind (Option Sym) :=
+  match g.db.unitBySym u with
+  | some r => .ok (pickDefaultCat g r)
+  | none =>
+    if isLegacy g.legacy u then
+      match g.db.unitBySym (fixLegacy g.legacy u) with
+      | some r => .ok (pickDefaultCat g r)
+      | none => .error .key
+    else .ok none
+
+/-- `ObtainQuantity(unit)` without a category (`Scalar(1.0, 'm')`, `Array([..], 'm')`, …): the default
+category of the unit — of its legacy-fixed spelling when the unit itself has none — looked up in the
+registry as it is NOW (a registration empties the quantity cache), then the named construction -/
+def mkQuantNoCat (g : Reg) (u : Sym) : Except ErrKind Quant :=
+  match defaultCategory g u with
+  | .error e => .error e
+  | .ok (some c) => mkQuant g c u
+  | .ok none =>
+    if isLegacy g.legacy u then
+      match defaultCategory g (fixLegacy g.legacy u) with
+      | .error e => .error e
+      | .ok (some c) => mkQuant g c (fixLegacy g.legacy u)
+      | .ok none => .error .type          -- `Quantity(None, unit)`: "Only str is accepted"
+    else .error .units
+
 /-! ### `Quantity.CheckValue` -/
 
 inductive CmpOp | gt | ge | lt | le
